@@ -405,6 +405,11 @@ def gen_value(rng, kind):
             return "".join(chr(rng.choice((0x1F600, 0x1D11E, 0x10FFFF, 0x4E2D, 0xE9, 0x20AC, 0x5D0))) for _ in range(rng.randint(1, 6)))
         if r < 0.28:
             return "x" * rng.randint(1000, 20000)
+        if r < 0.34:
+            # canonically equivalent but different texts (composed / decomposed accents, Hangul syllable / jamo, OHM SIGN /
+            # omega, compatibility forms): both spellings of a pair occur in one table and must each read back as written
+            return rng.choice(("caf\u00e9", "cafe\u0301", "\uac00", "\u1100\u1161", "\u2126", "\u03a9", "\u00c5", "A\u030a", "\u212b",
+                               "\ufb01", "fi", "\u1e9b\u0323", "\u1e9b\u0323".encode().decode(), "n\u0303o", "\u00f1o"))
         if r < 0.4:
             return rng.choice(("same", "Same", "same ", "TRUE", "12", "1.5", "=A1", "'q", '"', "\u0000nul", " ", "​"))
         return "".join(rng.choice("abcXYZ 0123456789_-+/\\%$é") for _ in range(rng.randint(1, 24)))
